@@ -110,7 +110,8 @@ pub fn mx_value(rng: &mut Rng, ty: &Ty, allow_null: bool) -> FieldValue {
     }
 }
 
-/// 4..=6 vertices, every property from `mx_value` (`id` = vertex id), 1..=3 `e0` neighbours each, all
+/// 4..=6 vertices, every property from `mx_value` (`id` = vertex id; on the last vertex every nullable
+/// property is null), 1..=3 `e0` neighbours each, all
 /// vertices are starting vertices.
 pub fn mx_dataset(rng: &mut Rng, schema: &GenSchema) -> Dataset {
     let n = 4 + rng.below(3);
@@ -121,6 +122,10 @@ pub fn mx_dataset(rng: &mut Rng, schema: &GenSchema) -> Dataset {
             .iter()
             .map(|(name, ty)| {
                 let v = if name == "id" { FieldValue::Int64(i as i64) } else { mx_value(rng, ty, true) };
+                // the last vertex is the all-null vertex: every nullable property is null there, so that every
+                // cell with a nullable left operand and a nullable tagged operand meets the null/null pair
+                // (added after seeded change C09-5; the random value is still drawn, so streams are unchanged)
+                let v = if name != "id" && i + 1 == n && ty.is_nullable() { FieldValue::Null } else { v };
                 (name.clone(), v)
             })
             .collect();
